@@ -402,6 +402,35 @@ func init() {
 		e.bigSet(st, args[0], e.TS.Int(new(big.Int).SetBytes([]byte(s))))
 		return ret1(st, args[0])
 	})
+	R("(*math/big.Int).Bits", func(e *Exec, st *State, fn *ssa.Function, args []Value, depth int) []Outcome {
+		// only the word count of the result is modelled (callers compare it with a word limit); it must be
+		// determined by the value's interval up to the 4-word (256-bit) limit used by the sdk
+		x := e.bigGet(st, args[0])
+		words := func(v *big.Int) int { return (new(big.Int).Abs(v).BitLen() + 63) / 64 }
+		n := -1
+		if x.Op == OpConst {
+			n = words(x.Val)
+		} else if x.Lo != nil && x.Hi != nil {
+			maxW := words(x.Lo)
+			if w := words(x.Hi); w > maxW {
+				maxW = w
+			}
+			if maxW <= 4 {
+				n = maxW
+			}
+		}
+		if n < 0 {
+			unsupported("big.Int.Bits of a value whose word count is not determined")
+		}
+		vals := make([]Value, n)
+		for i := range vals {
+			vals[i] = UnknownVal{Why: "word of a symbolic big.Int"}
+		}
+		if n == 0 {
+			return ret1(st, Slice{})
+		}
+		return ret1(st, e.sliceFromValues(st, types.Typ[types.Uint], vals))
+	})
 	R("(*math/big.Int).TrailingZeroBits", func(e *Exec, st *State, fn *ssa.Function, args []Value, depth int) []Outcome {
 		x := e.bigGet(st, args[0])
 		if x.Op != OpConst {
